@@ -1,4 +1,4 @@
-SPECIFICATION Spec
+SPECIFICATION FairSpec
 CONSTANTS
   Workers = {w1, w2}
   Producers = {p1, p2}
@@ -14,9 +14,7 @@ CONSTANTS
   RecheckUnderLock = TRUE
   GuardedConn = TRUE
   PerCycleWG = TRUE
-  SubscribeMayFail = FALSE
-  Script <- MCScript
-VIEW view
-INVARIANTS MutualExclusion FifoPrefix AtMostOnce ExactlyOnce NoPanic AfterShutdown NoLateStart Accounted
-PROPERTY AppendOnly
-CHECK_DEADLOCK TRUE
+  SubscribeMayFail = TRUE
+  Script <- MCScriptL
+PROPERTIES ShutdownReturns ServeReturns AcceptedRuns FailedServeReturns
+CHECK_DEADLOCK FALSE
